@@ -193,7 +193,7 @@ func magnetMain(rc *RunCtx) {
 					Name: fmt.Sprintf("hostile%d-%d", i, r), Fast: st.Bool(1, 2), Ext: true, MetadataSize: lie,
 					Have: func(int) bool { return true }, Advertise: 3, Reqq: -1, UnchokeAfter: -1, NoMonitor: true,
 				}
-				mode := st.Choice(9)
+				mode := st.Choice(10)
 				var p *RefPeer
 				cfg.OnMessage = func(_ *RefPeer, m refwire.Message) bool {
 					e, ok := m.(refwire.Extended)
@@ -244,6 +244,14 @@ func magnetMain(rc *RunCtx) {
 						p.Send(refwire.Extended{SubID: uint8(id), Payload: refwire.EncodeMetadata(o)})
 						if len(reply.Data) > 0 {
 							reply.Data[len(reply.Data)-1] ^= 1
+						}
+					case 9: // consistent with its lie: blocks of a (forged) dictionary of the size it voted for
+						if lie > 0 && lie <= 128<<20 {
+							reply.TotalSize = lie
+							n := min(16384, lie-mm.Piece*16384)
+							if n > 0 && int64(len(reply.Data)) != n {
+								reply.Data = drawBytes(st, int(n))
+							}
 						}
 					case 8: // a corrupt block, and right behind it a block that states no (or another) total size
 						if len(reply.Data) > 0 {
@@ -306,6 +314,10 @@ func magnetMain(rc *RunCtx) {
 	}
 	check()
 	if rc.Failed() {
+		return
+	}
+	if chClosed(t.Done) && !t.InfoComplete() {
+		rc.Fail("C12", "liveness", "torrent-died", "the torrent stopped by itself (nobody deleted it) while its metadata was incomplete: something a peer sent ended its event loop, and it can never complete")
 		return
 	}
 	if acceptable && !t.InfoComplete() {
